@@ -11,6 +11,7 @@ mod p_builder;
 mod p_layout;
 mod p_meta;
 mod p_misc;
+mod p_prog;
 mod p_parseq;
 mod p_sched;
 mod p_world;
@@ -806,6 +807,22 @@ fn all_subs_for(id: &str) -> Vec<Sub> {
 }
 
 fn run_property(id: &str, tier: &Tier, known: &Known) -> i32 {
+    if id == "C06" {
+        let r = p_prog::run_c06(tier.quick, tier.seed);
+        return PropertyRun {
+            id: id.to_string(),
+            tier: tier.name().to_string(),
+            seed: tier.seed,
+            level: "exploration".to_string(),
+            subs: vec![r],
+            assumptions: vec![
+                "the grammar covers the compositions the library provides up to nesting depth 3, not arbitrary user SystemData impls".into(),
+                "the borrow state of a cell is observed through World::try_fetch_internal + try_borrow(_mut)".into(),
+            ],
+            extra: BTreeMap::new(),
+        }
+        .finish(known);
+    }
     let subs = all_subs_for(id);
     if subs.is_empty() {
         eprintln!("unknown property {}", id);
@@ -856,6 +873,23 @@ fn replay(path: &str) -> i32 {
     };
     let check = v["check"].as_str().unwrap_or("").to_string();
     let property = v["property"].as_str().unwrap_or("").to_string();
+    if check == "c06-programs" {
+        return match p_prog::replay_c06(&v["case"]) {
+            Err(e) => {
+                eprintln!("INCONCLUSIVE (harness error): {}", e);
+                2
+            }
+            Ok(Ok(())) => {
+                println!("replay of {} passes", path);
+                0
+            }
+            Ok(Err(m)) => {
+                println!("VIOLATION property=C06 replay={}", path);
+                println!("  check=c06-programs : {}", m);
+                1
+            }
+        };
+    }
     let mut result = None;
     for id in ALL {
         for s in all_subs_for(id) {
